@@ -16,6 +16,7 @@ CONSTANTS
  Probes = FALSE
  Exts = {FALSE}
  KeepSlots = FALSE
+ TarUnverified = FALSE
 INIT GInit
 NEXT GNext
 INVARIANTS Emit
